@@ -36,6 +36,7 @@ type SiteSpec struct {
 	Callee  string
 	Ordinal int // 0 = every matching site
 	Clause  *Clause
+	ArgName string  // call(f:x): only calls whose first argument is the source variable x
 	Given   *Clause // iter: what may be assumed about the callback's arguments (item0, item1, ...)
 	matched int
 }
@@ -354,6 +355,10 @@ func (db *SpecDB) LoadFile(path, pkgPath string) error {
 				inner := site[5 : len(site)-1]
 				if j := strings.LastIndex(inner, "#"); j >= 0 {
 					ss.Ordinal, _ = strconv.Atoi(inner[j+1:])
+					inner = inner[:j]
+				}
+				if j := strings.Index(inner, ":"); j >= 0 {
+					ss.ArgName = inner[j+1:]
 					inner = inner[:j]
 				}
 				ss.Callee = inner
